@@ -564,6 +564,14 @@ class PeerConnection:
                     self.logger.debug(
                         f"expecting a message with command code "
                         f"{msg_header.command_code}, length {msg_header.length}")
+                    if msg_header.length < 20:
+                        # shorter than the header itself; there is no frame
+                        # boundary to resume from
+                        self.logger.warning(
+                            f"received a message header with an invalid "
+                            f"length {msg_header.length}, closing connection")
+                        self.close()
+                        return
                     if len(self._read_buffer) < msg_header.length:
                         self.logger.debug(
                             f"message incomplete (received "
